@@ -11,6 +11,8 @@ open Lerax.Proto Lerax.Env
 structure Orc where
   init : Nat
   noise : Nat
+  action : Float := 0.0      -- the action the policy sampled (on-/off-policy collection)
+  u : Float := 1.0           -- epsilon-greedy uniform draw (unused by the environment)
 
 instance : Keys Orc := ⟨fun k _ => k⟩
 
@@ -29,9 +31,13 @@ structure Tab where
   box : Bool
   bounds : List Float              -- bucket boundaries of a Box action (ascending)
   coef : Float                     -- Box: reward += coef * action
+  masks : Option (List (List Bool)) := none   -- [s][a] action masks offered by the environment
 
 def Tab.bucket (t : Tab) (a : Float) : Nat :=
   if t.box then (t.bounds.filter (fun b => b ≤ a)).length else a.toUInt64.toNat
+
+def Tab.mask (t : Tab) (st : TabState) : Option (List Bool) :=
+  t.masks.map (fun m => m.getD st.s [])
 
 def Tab.env (t : Tab) : Env TabState Float (List Float) Float Orc where
   initial k := { s := k.init, clock := 0, noise := 0 }
@@ -53,12 +59,14 @@ structure Packed where
   env : Env S Float (List Float) Float Orc
   enc : S → TabState × List Nat
   dec : TabState → List Nat → Option S
+  mask : S → Option (List Bool) := fun _ => none
 
 def Packed.base (t : Tab) : Packed where
   S := TabState
   env := t.env
   enc s := (s, [])
   dec s cs := if cs.isEmpty then some s else none
+  mask s := t.mask s
 
 def Packed.timeLimit (n : Nat) (p : Packed) : Packed where
   S := p.S × Nat
@@ -67,6 +75,7 @@ def Packed.timeLimit (n : Nat) (p : Packed) : Packed where
   dec b cs := match cs with
     | c :: cs' => (p.dec b cs').map (fun s => (s, c))
     | [] => none
+  mask s := p.mask s.1
 
 def Packed.mapAction (f : Float → Float) (p : Packed) : Packed :=
   { p with env := Lerax.Env.mapAction f p.env }
@@ -129,7 +138,10 @@ def parseTab (v : V) : R Tab := do
   let Rw' ← Rw.mapM (fun row => do (← row.asL).mapM V.asFs)
   pure { T := T', Rw := Rw', term := ← (← v.get "term").asBs, trunc := ← (← v.get "trunc").asBs,
          inits := ← (← v.get "inits").asNs, box := ← (← v.get "box").asB,
-         bounds := ← (← v.get "bounds").asFs, coef := ← (← v.get "coef").asF }
+         bounds := ← (← v.get "bounds").asFs, coef := ← (← v.get "coef").asF,
+         masks := ← (match v.get? "masks" with
+           | some (.l rows) => do pure (some (← rows.mapM V.asBs))
+           | _ => pure none) }
 
 def parseEnv (a : V) : R (Tab × List W) := do
   let t ← parseTab (← a.get "tab")
